@@ -16,7 +16,9 @@ pub fn prop() -> Prop {
          (a) validate -> into_inner -> validate: Ok and equal, incl. ordered type and directive lists; \
          (b) validate -> into_inner -> add 1-3 references to built-in scalars that validation pruned (as a new object field, \
          field argument, input field or directive-definition argument, any list/non-null wrapping) -> validate: Ok and \
-         type-name SET = previous set + referenced scalars, all else unchanged; \
+         type-name SET = previous set + referenced scalars, all else unchanged; in a third of the histories every \
+         reference to one present built-in scalar is first redirected to a custom scalar, so that scalar must be pruned \
+         again (unless re-referenced) and a further validation must change nothing; \
          (c) `{ __typename }` and selections of argument-free-callable fields of the query root: \
          parse_and_validate Ok => into_inner().validate(&schema) Ok. \
          Non-trivial: the first validation pruned at least one built-in scalar; distinct by text + edit plan.",
@@ -56,6 +58,85 @@ fn wrap(c: &mut Choices, named: &str, allow_outer_non_null: bool) -> Type {
     } else {
         t
     }
+}
+
+
+fn rename_in_type(t: &Type, from: &str, to: &Name) -> Type {
+    match t {
+        Type::Named(n) => Type::Named(if n == from { to.clone() } else { n.clone() }),
+        Type::NonNullNamed(n) => Type::NonNullNamed(if n == from { to.clone() } else { n.clone() }),
+        Type::List(i) => Type::List(Box::new(rename_in_type(i, from, to))),
+        Type::NonNullList(i) => Type::NonNullList(Box::new(rename_in_type(i, from, to))),
+    }
+}
+
+/// Remove every reference to the built-in scalar `from`: all field, argument, input-field and
+/// directive-argument types naming it name the custom scalar `C16Any` instead (added if missing; a
+/// custom scalar accepts every literal, and replacing a named type consistently keeps interface
+/// implementations valid). Returns whether anything referred to it.
+pub(crate) fn unreference(s: &mut Schema, from: &str) -> bool {
+    let to = Name::new("C16Any").unwrap();
+    let mut any = false;
+    let fix_args = |args: &mut Vec<Node<InputValueDefinition>>, any: &mut bool| {
+        for a in args.iter_mut() {
+            if a.ty.inner_named_type() == from {
+                let nt = rename_in_type(&a.ty, from, &to);
+                a.make_mut().ty = Node::new(nt);
+                *any = true;
+            }
+        }
+    };
+    let names: Vec<Name> = s.types.keys().cloned().collect();
+    for n in names {
+        if n.starts_with("__") {
+            continue;
+        }
+        match s.types.get_mut(&n) {
+            Some(ExtendedType::Object(o)) => {
+                for (_, f) in o.make_mut().fields.iter_mut() {
+                    let f = f.make_mut();
+                    if f.ty.inner_named_type() == from {
+                        f.ty = rename_in_type(&f.ty, from, &to);
+                        any = true;
+                    }
+                    fix_args(&mut f.arguments, &mut any);
+                }
+            }
+            Some(ExtendedType::Interface(o)) => {
+                for (_, f) in o.make_mut().fields.iter_mut() {
+                    let f = f.make_mut();
+                    if f.ty.inner_named_type() == from {
+                        f.ty = rename_in_type(&f.ty, from, &to);
+                        any = true;
+                    }
+                    fix_args(&mut f.arguments, &mut any);
+                }
+            }
+            Some(ExtendedType::InputObject(o)) => {
+                for (_, f) in o.make_mut().fields.iter_mut() {
+                    if f.ty.inner_named_type() == from {
+                        let nt = rename_in_type(&f.ty, from, &to);
+                        f.make_mut().ty = Node::new(nt);
+                        any = true;
+                    }
+                }
+            }
+            _ => {}
+        }
+    }
+    let dnames: Vec<Name> = s.directive_definitions.iter().filter(|(_, d)| !d.is_built_in()).map(|(n, _)| n.clone()).collect();
+    for n in dnames {
+        if let Some(d) = s.directive_definitions.get_mut(&n) {
+            if d.arguments.iter().any(|a| a.ty.inner_named_type() == from) {
+                fix_args(&mut d.make_mut().arguments, &mut any);
+            }
+        }
+    }
+    if any && !s.types.contains_key("C16Any") {
+        let name = Name::new("C16Any").unwrap();
+        s.types.insert(name.clone(), ExtendedType::Scalar(Node::new(apollo_compiler::schema::ScalarType { description: None, name, directives: Default::default() })));
+    }
+    any
 }
 
 fn ivd(name: &str, ty: Type) -> Node<InputValueDefinition> {
@@ -205,6 +286,20 @@ fn history(text: &str, c: &mut Choices, ctx: &mut Ctx) -> Outcome {
         let n = 1 + c.choose(3);
         let mut referenced: BTreeSet<String> = BTreeSet::new();
         let mut plan = vec![];
+        // sometimes first REMOVE every reference to one built-in scalar that is present (String and
+        // Boolean are always referenced by the introspection types and built-in directives)
+        let mut unreferenced: Option<&str> = None;
+        if c.bool(90) {
+            let present: Vec<&str> = ["Int", "Float", "ID"].into_iter().filter(|x| v1.types.contains_key(*x)).collect();
+            if !present.is_empty() {
+                let sc = present[c.choose(present.len())];
+                if unreference(&mut s, sc) {
+                    unreferenced = Some(sc);
+                    plan.push(format!("every reference to {} now names the custom scalar C16Any", sc));
+                    ctx.class("unreferenced-a-scalar");
+                }
+            }
+        }
         for k in 0..n {
             let pool: Vec<&str> = if !pruned.is_empty() && c.bool(230) { pruned.clone() } else { SCALARS.to_vec() };
             let sc = pool[c.choose(pool.len())];
@@ -221,6 +316,11 @@ fn history(text: &str, c: &mut Choices, ctx: &mut Ctx) -> Outcome {
             Err(e) => fails.push(("C16|edit|rejected".into(), format!("validation after edits {:?} fails: {}\n{}", plan, errors_of(&e.errors), text))),
             Ok(v3) => {
                 let mut want: BTreeSet<String> = names1.iter().cloned().collect();
+                if let Some(u) = unreferenced {
+                    // no longer referenced: validation must prune it, unless an edit below refers to it again
+                    want.remove(u);
+                    want.insert("C16Any".to_string());
+                }
                 want.extend(referenced.iter().cloned());
                 let got: BTreeSet<String> = type_names(&v3).into_iter().collect();
                 if type_names(&v3).len() != got.len() {
@@ -241,7 +341,7 @@ fn history(text: &str, c: &mut Choices, ctx: &mut Ctx) -> Outcome {
                 // types keep their relative order
                 let before: Vec<&String> = names1.iter().filter(|n| !SCALARS.contains(&n.as_str())).collect();
                 let after_names = type_names(&v3);
-                let after: Vec<&String> = after_names.iter().filter(|n| !SCALARS.contains(&n.as_str())).collect();
+                let after: Vec<&String> = after_names.iter().filter(|n| !SCALARS.contains(&n.as_str()) && (n.as_str() != "C16Any" || names1.iter().any(|x| x == "C16Any"))).collect();
                 if before != after {
                     fails.push(("C16|edit|user-type-order-changed".into(), format!("{:?} vs {:?}", before, after)));
                 }
